@@ -33,10 +33,20 @@ impl SeqGroup {
     }
 
     pub fn apply_range(&mut self, start: u64, len: u64) {
-        if self.use_a && !self.range_a.has_next() || !self.use_a && self.range_b.has_next() {
-            self.range_a.renew(start, len);
+        // the buffer in use must keep holding the smaller ids: if it is exhausted,
+        // switch to the other one first, then refill the buffer that is not in use
+        let current_has_next = if self.use_a {
+            self.range_a.has_next()
         } else {
+            self.range_b.has_next()
+        };
+        if !current_has_next {
+            self.switch_state();
+        }
+        if self.use_a {
             self.range_b.renew(start, len);
+        } else {
+            self.range_a.renew(start, len);
         }
     }
 
